@@ -150,12 +150,23 @@ def _work_inner(job):
     env = load_env()
     bounds = Bounds(**job["bounds"])
     out = {"results": [], "errors": []}
-    for name in job["seeds"]:
-        p = S.by_name(name)
+    todo = [(name, S.by_name(name)) for name in job["seeds"]]
+    gen_names = set()
+    if job.get("gen"):
+        from .gen import generate
+        from .mutate_src import build_module
+
+        gseed, gcount = job["gen"]
+        mod = build_module(f"c02gen{gseed}", generate(gseed, gcount))
+        todo += [(nm, pr) for nm, pr in mod.PROCS.items()]
+        gen_names = set(mod.PROCS)
+        out["gen_rejected"] = len(mod.REJ)
+    for name, p in todo:
         if p.is_instr():
             continue
         rng = random.Random(f"c02-{job['rngseed']}-{name}")
-        for k, (pname, q, how) in enumerate(programs_for(name, p, env, rng, job["tier"])):
+        plist = [(f"{name}:generated", p, None)] if name in gen_names else programs_for(name, p, env, rng, job["tier"])
+        for k, (pname, q, how) in enumerate(plist):
             t0 = time.time()
             tag = f"{os.getpid()}_{name}_{k}"
             try:
@@ -200,6 +211,9 @@ def run(prop, tier):
     else:
         bounds = dict(size_max=4, idx_max=5, stmt_budget=2500)
     jobs = [dict(seeds=names[b : b + 2], bounds=bounds, rngseed=vseed, tier=tier) for b in range(0, len(names), 2)]
+    n_gen_jobs, per_job = (8, 10) if tier == "quick" else (40, 25)
+    base = (vseed % 5) * 100 if tier == "quick" else 0
+    jobs += [dict(seeds=[], bounds=bounds, rngseed=vseed, tier=tier, gen=(base + g, per_job)) for g in range(n_gen_jobs)]
     with mp.get_context("fork").Pool(ncpu(), maxtasksperchild=2) as pool:
         outs = pool.map(_work, jobs, chunksize=1)
     rep = Reporter(prop)
